@@ -236,4 +236,20 @@ META = {
         "shards": 8,
         "max_inconclusive": 0.05,
     },
+    "C13": {
+        "level": "exploration",
+        "evaluations": ["fuzz_cases", "repeat_runs", "tail_runs"],
+        "required": ["fuzz_cases", "status:pass", "status:skip", "status:fail", "overruns", "tail_runs", "repeat_runs",
+                     "len_mod8:0", "len_mod8:1", "len_mod8:2", "len_mod8:3", "len_mod8:4", "len_mod8:5", "len_mod8:6", "len_mod8:7"],
+        "show": ["fuzz_cases", "status:pass", "status:skip", "status:fail", "overruns", "tail_runs", "repeat_runs"],
+        "rule": "random programs (and Bool-only programs) run through MakeFuzz in real *testing.T sub-tests on byte strings that are hostile word "
+                "patterns, PRNG recordings of the same program, recordings with hostile replacements, truncations at every residue mod 8, recordings plus "
+                "extra bytes, and random bytes; oracle: bitstream handed to the property = little-endian words of the input with a zero-padded tail "
+                "(harness's own conversion), status follows from the property's own log (fail iff a failure was signalled, skip iff it skipped or a draw "
+                "did not return), draws/outcome equal VerifReplay of those words, Bool = lowest bit of its word, same input twice gives the same, appending "
+                "unconsumed bytes changes nothing; non-trivial+distinct = distinct (program, draw sequence) of cases that were not skipped",
+        "assumptions": COMMON_ASSUME,
+        "level_text": "Runtime differential monitor of the fuzz entry point against an independent byte->word conversion and the replay path.",
+        "technique": "differential monitor: MakeFuzz sub-tests vs independent LE conversion + buffer replay; metamorphic checks (repeat, append tail)",
+    },
 }
